@@ -330,3 +330,37 @@ def C16(run):
     run.assumptions += ["derr.RetryContext's real back-off (1 s Fibonacci) is kept, so the number of fault runs per tier is modest",
                         "deadline-exceeded x3 (documented to fail the job) is not among the injected transient faults"]
     run.level = "fault_enumeration"
+
+
+def C05(run):
+    q = run.tier == "quick"
+    # design level: exhaustive interleavings on small grids, every cache state an earlier complete run can leave; liveness with fairness
+    for cfgname in (["MCSched_quick.cfg", "MCSched_2x3.cfg", "MCSched_3x4.cfg"] if q else ["MCSched_quick.cfg", "MCSched_2x3.cfg", "MCSched_3x4.cfg", "MCSched_3x4w.cfg", "MCSched_2S.cfg"]):
+        run.model_check("MCSched", cfgname, workers=16, timeout=3000)
+    # arbitrary cache subsets: the design-level counterexample of known finding D7 must still be there (not an alarm)
+    res = run.tlc("MCSched", "MCSched_2x3_any.cfg", workers=4, timeout=600, expect_violation=True)
+    run.cov["design_level_known_finding_D7_reproduced"] = bool(res.get("invariant_violated")) and "JobInputsComplete" in res["out"]
+    # real scheduler: every Update of real tier1 runs (hook), random job completion orders, cold / warm / subset caches
+    tr = _t(run, "system-sched.ndjson")
+    total = 0
+    for kind, n in (("strategies", 10 if q else 300), ("subsets", 8 if q else 300), ("schedcex", 4 if q else 40)):
+        trk = _t(run, "system-sched-%s.ndjson" % kind)
+        info = run.harness("system", trk, extra=["-x", kind, "-n", str(n)], timeout=3000)
+        v = run.validate_sharded("TraceSched", trk, boundary='"ev":"prog"', shards=12, xss="512m")
+        run.judge(v, trk, "sched-" + kind, only="C05:")
+        # a run that hangs or fails is reported by TraceSystem (C05 liveness on the real code: the request must terminate)
+        v2 = run.validate_sharded("TraceSystem", trk, boundary='"ev":"prog"', shards=12, xss="512m")
+        v2["bad"] = [dict(i=b["i"], why=[w.replace("C01:", "C05:") for w in b["why"] if w.startswith("C01:request_failed") or w.startswith("C01:panic")]) for b in v2["bad"]]
+        v2["bad"] = [b for b in v2["bad"] if b["why"]]
+        run.judge(v2, trk, "sched-" + kind + "-termination", only="C05:")
+        run.cov["distinct_nontrivial"] += info["distinct_nontrivial"]
+        total += info["records"]
+    run.sample(trk, pick={3, 4, 5})
+    run.cov["rule"] = ("scheduler traces: every Scheduler.Update (verif hook at the end of Update: message, unit matrix, segmentCompleted, "
+                       "workers, walker, flags) of real tier1 runs on generated programs with 1..4 workers, harness-chosen random job "
+                       "completion orders and no ramp-up, on cold caches, caches left by earlier requests, random subsets of cache files, "
+                       "and a replay of a design-level counterexample shape (two store stages, lower store cached ahead); each step is "
+                       "replayed through Sched.tla's Update on the observed pre-state. Non-trivial = run with more than one data message.")
+    run.assumptions += ["message pools are modelled as sets (a duplicate pending MsgScheduleNextJob is not distinguished)",
+                        "one store module per store stage in the design-level model; real traces have any number",
+                        "the walker's polling of a missing file is a fair stuttering step"]
